@@ -14,6 +14,7 @@ import CookModel.Lemmas.ExtLawsEvents
 import CookModel.Lemmas.DiagExactComp
 import CookModel.Lemmas.DiagEmptyValue
 import CookModel.Lemmas.DiagAnalysisExact
+import CookModel.Lemmas.DiagSoundDoc
 /-
   C07  Diagnostics are sound, complete and placed on the offending construct.
 
@@ -1572,5 +1573,96 @@ example : (parseEvents C01_toyEnv [] C01_exSimple.events).isValid = true := by
   · intro st hst
     simp only [C01_exSimple, List.mem_cons, List.not_mem_nil, or_false] at hst
     rcases hst with rfl | rfl <;> simp
+
+/-! ### Soundness on whole documents: sections, `>>` lines, text paragraphs, references (wave 4)
+
+  `event_consumer.rs` pushes the deprecation notice ("The '>>' syntax for metadata is deprecated …",
+  kind `meta-deprecated`) at the end of `parse_events`, under EVERY extension set, exactly when at
+  least one `>>` entry was recorded in `old_style_metadata_used` (a `[mode]`-style key under MODES is a
+  switch and is not recorded), with one label per recorded entry.  It is a WARNING of the analysis
+  stage — the one warning the property allows on a well-formed recipe. -/
+
+/-- **A well-formed document is quiet apart from the `>>` notice, under every extension set.**  For every
+    document accepted by `C01_recipe_doc` — steps (plain definitions), section lines, plain `>>` metadata
+    lines, text paragraphs, with the syntactic side conditions of the printer; under ADVANCED_UNITS /
+    INLINE_QUANTITIES the timers are numeric with a time unit and the texts show no inline quantity
+    (`DocItem.extOK`) — `CooklangParser::parse` on the printed text
+    * reports EXACTLY: nothing when the document has no `>>` line; otherwise the ONE diagnostic
+      `meta-deprecated` (severity warning, stage analysis) carrying one label per `>>` line;
+    * so every reported diagnostic is that notice, none is an error;
+    * the result has output, is valid, and no panic site is reached. -/
+theorem C07_sound_recipe_doc (env : Env) (pre : List Tok) (doc : List (DocItem × List Tok))
+    (hpre : blankLinesOK pre = true) (hok : ∀ d ∈ doc, d.1.ok env.cs env.ext = true)
+    (hsimple : ∀ d ∈ doc, d.1.simple = true) (hplain : ∀ d ∈ doc, d.1.plain env)
+    (hext : ∀ d ∈ doc, d.1.extOK α env)
+    (hseps : sepsOK (doc.map (·.2)) = true) (hw : WellSpelled env.cs (pre ++ docSpec doc))
+    (hfm : parseFrontmatter env.cs (render (pre ++ docSpec doc)) = none) :
+    ∃ spans : List Span, spans.length = ((doc.map (·.1)).filter DocItem.isMeta).length ∧
+      (parseRecipe (α := α) env (render (pre ++ docSpec doc))).diags =
+        (if ((doc.map (·.1)).filter DocItem.isMeta).length = 0 then #[]
+         else #[⟨.warning, .analysis, "meta-deprecated", spans⟩]) ∧
+      (∀ d ∈ (parseRecipe (α := α) env (render (pre ++ docSpec doc))).diags.toList,
+        d = ⟨.warning, .analysis, "meta-deprecated", spans⟩ ∧ d.sev ≠ .error ∧
+        ((doc.map (·.1)).filter DocItem.isMeta).length ≠ 0) ∧
+      (parseRecipe (α := α) env (render (pre ++ docSpec doc))).isValid = true ∧
+      (parseRecipe (α := α) env (render (pre ++ docSpec doc))).panic = none := by
+  obtain ⟨c, spans, h1, -, -, -, -, -, hd, hl, -, -⟩ :=
+    rtx_parseRecipe_doc (α := α) env pre doc hpre hok hsimple hplain hext hseps hw hfm
+  obtain ⟨k1, k2, k3, k4, k5⟩ := c07s_notice_result _ c spans _ h1 hd hl
+  refine ⟨spans, hl, k1, fun d hd' => ?_, ?_, k5⟩
+  · obtain ⟨e1, e2⟩ := k2 d hd'
+    exact ⟨e1, by rw [e1]; simp [metaNotice], e2⟩
+  · unfold AnalysisResult.isValid
+    rw [k3, k4]; rfl
+
+/-- **… and with references.**  The same for every document accepted by `C01_recipe_doc_refs`: the
+    components need not be plain definitions — an ingredient or cookware item may be a correctly
+    written reference `@&name` / `#&name` (an earlier definition of the name exists, no modifier the
+    definition lacks, no note, not both with an amount, same value kind: `xOK`, decidable by
+    `C01_reference_conditions_check`), an ingredient may be an intermediate reference `@&(~1)name{}` whose
+    target exists; `=` only on a numeric ingredient amount.  Then `parse` reports exactly the `>>` notice
+    (iff there is a `>>` line; one label per line) and nothing else — in particular none of
+    `reference-not-found`, `ref-conflicting-modifiers`, `note-in-reference`, `conflicting-ref-quantity`,
+    `text-value-in-ref`, `inter-ref-*` — has output, is valid, and reaches no panic site. -/
+theorem C07_sound_recipe_doc_refs (env : Env) (pre : List Tok) (doc : List (DocItem × List Tok))
+    (hpre : blankLinesOK pre = true) (hok : ∀ d ∈ doc, d.1.ok env.cs env.ext = true)
+    (hlock : ∀ d ∈ doc, d.1.lockOK = true) (hplain : ∀ d ∈ doc, d.1.plain env)
+    (hext : ∀ d ∈ doc, d.1.extOK α env)
+    (hrefs : xOK (α := α) env {} [] ⟨none, []⟩ 1 (doc.map (fun d => d.1.x)))
+    (hseps : sepsOK (doc.map (·.2)) = true) (hw : WellSpelled env.cs (pre ++ docSpec doc))
+    (hfm : parseFrontmatter env.cs (render (pre ++ docSpec doc)) = none) :
+    ∃ spans : List Span, spans.length = ((doc.map (·.1)).filter DocItem.isMeta).length ∧
+      (parseRecipe (α := α) env (render (pre ++ docSpec doc))).diags =
+        (if ((doc.map (·.1)).filter DocItem.isMeta).length = 0 then #[]
+         else #[⟨.warning, .analysis, "meta-deprecated", spans⟩]) ∧
+      (∀ d ∈ (parseRecipe (α := α) env (render (pre ++ docSpec doc))).diags.toList,
+        d = ⟨.warning, .analysis, "meta-deprecated", spans⟩ ∧ d.sev ≠ .error ∧
+        ((doc.map (·.1)).filter DocItem.isMeta).length ≠ 0) ∧
+      (parseRecipe (α := α) env (render (pre ++ docSpec doc))).isValid = true ∧
+      (parseRecipe (α := α) env (render (pre ++ docSpec doc))).panic = none := by
+  obtain ⟨c, spans, h1, -, -, -, -, -, hd, hl, -, -⟩ :=
+    rtdr_parseRecipe_doc (α := α) env pre doc hpre hok hlock hplain hext hrefs hseps hw hfm
+  obtain ⟨k1, k2, k3, k4, k5⟩ := c07s_notice_result _ c spans _ h1 hd hl
+  refine ⟨spans, hl, k1, fun d hd' => ?_, ?_, k5⟩
+  · obtain ⟨e1, e2⟩ := k2 d hd'
+    exact ⟨e1, by rw [e1]; simp [metaNotice], e2⟩
+  · unfold AnalysisResult.isValid
+    rw [k3, k4]; rfl
+
+/-! non-vacuity.  `C01_exFullDoc` (`>> source: grandma`, a step with ingredients, cookware, alias, note,
+    `== Main course ==`, a step with a timer, `>> source : book`) satisfies the hypotheses of
+    `C07_sound_recipe_doc` under `C01_stepsEnv` (MODIFIERS + ALIAS) and under `C01_fullEnv` (every
+    extension on), and `C01_exRefsDoc` (`@&flour{50%g}`, `@&(~1)dough{}`, `#&bowl{}`, a text paragraph, a
+    section, `@&( = ~ 1 )?loaf{}`) those of `C07_sound_recipe_doc_refs` under `C01_refsEnv` — each
+    hypothesis is an `example` of Props/C01.lean.  Here: the decidable ones again, and the counts —
+    the first document gets the notice with two labels, the second no diagnostic at all. -/
+example : (∀ d ∈ C01_exFullDoc, d.1.ok C01_stepsEnv.cs C01_stepsEnv.ext = true) ∧
+    (∀ d ∈ C01_exFullDoc, d.1.simple = true) ∧ sepsOK (C01_exFullDoc.map (·.2)) = true ∧
+    ((C01_exFullDoc.map (·.1)).filter DocItem.isMeta).length = 2 := by decide
+example : (∀ d ∈ C01_exRefsDoc, d.1.ok C01_refsEnv.cs C01_refsEnv.ext = true) ∧
+    (∀ d ∈ C01_exRefsDoc, d.1.lockOK = true) ∧ sepsOK (C01_exRefsDoc.map (·.2)) = true ∧
+    ((C01_exRefsDoc.map (·.1)).filter DocItem.isMeta).length = 0 := by decide
+example : xOK (α := Rat) C01_refsEnv {} [] ⟨none, []⟩ 1 (C01_exRefsDoc.map (fun d => d.1.x)) :=
+  rtdr_xOKB _ _ _ _ _ _ (by decide)
 
 end Cook
